@@ -245,6 +245,9 @@ func (e *Engine) verifyContract(c *Contract) (res *UnitResult) {
 			if strings.HasPrefix(k, "chan.") && modsChan {
 				continue
 			}
+			if strings.HasPrefix(k, "ghost.") {
+				continue
+			}
 			if strings.HasPrefix(k, "bytes.") || strings.HasPrefix(k, "Cell_") || k == "big.Int.v" {
 				// library object state: only objects allocated here can be touched through the handlers
 			}
